@@ -4,7 +4,7 @@
    ordering, exception class and warning by the correspondence check of this property. *)
 From Coq Require Import String ZArith List Bool.
 From XV Require Import Base.Label Base.LSet Base.ODict Base.Attr Base.Outcome Model.Hypergraph
-  Proofs.HgViews Proofs.HgInv Proofs.HgInvOps Proofs.HgStep Proofs.HgErrors Proofs.HgSpec Proofs.ShuffleProofs.
+  Proofs.HgViews Proofs.HgInv Proofs.HgInvOps Proofs.HgStep Proofs.HgErrors Proofs.HgSpec Proofs.ShuffleProofs Proofs.DerivedProofs Proofs.HgSpecMore.
 Import ListNotations.
 Open Scope Z_scope.
 
@@ -95,6 +95,51 @@ Theorem C05_shuffle_preserves : forall s e1 e2 sample m1 m2,
   (forall x, In x (mems s e1) -> In x (mems s e2) -> In x (mems t e1) /\ In x (mems t e2)).
 Proof. exact shuffle_preserves. Qed.
 Print Assumptions C05_shuffle_preserves.
+
+(* clear / clear_edges *)
+Theorem C05_clear : forall rn s,
+  st_of (clear rn s) = mkHG [] [] [] [] (if rn then [] else h_net s) (h_uid s) /\ out_of (clear rn s) = Ok.
+Proof. exact clear_effect. Qed.
+Print Assumptions C05_clear.
+
+Theorem C05_clear_edges : forall s,
+  let t := st_of (clear_edges s) in
+  out_of (clear_edges s) = Ok /\ nkeys t = nkeys s /\ (forall n, mships t n = []) /\ h_edge t = [] /\ h_eattr t = [] /\
+  h_nattr t = h_nattr s /\ h_net t = h_net s /\ h_uid t = h_uid s.
+Proof. exact clear_edges_effect. Qed.
+Print Assumptions C05_clear_edges.
+
+(* the attribute setters (dict of dicts, keys present): d.update on the named ids, nothing else changes *)
+Theorem C05_set_node_attributes : forall vals s, NoDup (map fst vals) ->
+  (forall nd, In nd vals -> In (fst nd) (keys (h_nattr s))) ->
+  let t := st_of (set_node_attrs_dict vals s) in
+  (forall n, get n (h_nattr t) = match get n vals with Some d => Some (aupdate (geta n (h_nattr s)) d) | None => get n (h_nattr s) end) /\
+  h_node t = h_node s /\ h_edge t = h_edge s /\ h_eattr t = h_eattr s /\ h_uid t = h_uid s.
+Proof. exact set_node_attrs_dict_effect. Qed.
+Print Assumptions C05_set_node_attributes.
+
+Theorem C05_set_edge_attributes : forall vals s, NoDup (map fst vals) ->
+  (forall nd, In nd vals -> In (fst nd) (keys (h_eattr s))) ->
+  let t := st_of (set_edge_attrs_dict vals s) in
+  (forall e, get e (h_eattr t) = match get e vals with Some d => Some (aupdate (geta e (h_eattr s)) d) | None => get e (h_eattr s) end) /\
+  h_node t = h_node s /\ h_edge t = h_edge s /\ h_nattr t = h_nattr s /\ h_uid t = h_uid s.
+Proof. exact set_edge_attrs_dict_effect. Qed.
+Print Assumptions C05_set_edge_attributes.
+
+(* bulk edge removal and duplicate merging *)
+Theorem C05_remove_edges_from : forall es s, Inv s -> NoDup es -> (forall e, In e es -> In e (ekeys s)) ->
+  let t := st_of (remove_edges_from es s) in
+  out_of (remove_edges_from es s) = Ok /\ Inv t /\ nkeys t = nkeys s /\
+  forall e, get e (h_edge t) = if mem e es then None else get e (h_edge s).
+Proof. exact remove_edges_from_effect. Qed.
+Print Assumptions C05_remove_edges_from.
+
+Theorem C05_merge_duplicates_no_repeats : forall s, Inv s -> NoNone s ->
+  out_of (merge_duplicate_edges RnFirst MrFirst None s) = Ok ->
+  let t := st_of (merge_duplicate_edges RnFirst MrFirst None s) in
+  Inv t /\ forall e f ms mf, get e (h_edge t) = Some ms -> get f (h_edge t) = Some mf -> seteq ms mf -> e = f.
+Proof. exact merge_first_no_repeats. Qed.
+Print Assumptions C05_merge_duplicates_no_repeats.
 
 Example C05_nonvacuous :
   let s := run [OAddEdgesFrom (EB1 [[LInt 1; LInt 2]; [LInt 3; LInt 4]; [LInt 1]]) []] hg_empty in
